@@ -16,6 +16,7 @@ from .. import rig as R, ref, gen, qcore, env, dump
 from ..orch import h
 
 ID = "C02"
+TECHNIQUE = 'runtime monitoring - completeness oracle over store dumps: every stored event that must-match a filter under its limit is owed before EOSE, at most once per matching filter; LMDB query plans tapped for coverage; small-scope exhaustive filters + seeded random conjunctions'
 LEVEL = "exploration"
 RULE = (
     "cases = (backend, dense seeded store, REQ of 1-5 well-formed filters). Stores of 12 events are queried with "
